@@ -13,16 +13,15 @@ package main
 // Scenario `ctxcancel` (regression for the hang repaired by 630a898): as above with one selected session,
 // but the context given to Server.Serve is cancelled first, so the DB read and the DB write of
 // removeState fail. Close must return (theorem teardown_ctxcancel_now_completes; a hang is reported as
-// `c19teardown ctxcancel-hang`). What is still wrong: removeState returns on the write error before
-// state.Close(), the state's update-queue goroutine is left (theorem
-// teardown_writefail_unclosed_state_witness): reported as `c19teardown #13d`.
+// `c19teardown ctxcancel-hang`) and leave no goroutine: removeState closes the state also when its DB
+// write fails (0873710; theorems teardown_safe, teardown_writefail_now_clean; a goroutine left is
+// reported as `c19teardown #13d`).
 // Scenario `snaprace` (only with -snaprace, meant for the -race build, see o_c19race.go): sessions A and
 // B select the same mailbox; B keeps deleting+expunging and logging out while A keeps issuing
 // commands: removeState(B) reads A's snapshot (other.HasMessage) from B's goroutine (finding #13b).
 // Scenario `errch`: three unauthenticated sessions, Serve context cancelled, nobody reads GetErrorCh:
-// the serveErrCh consumer goroutine survives Server.Close, which uses plain QueuedChannel.Close
-// (fact serverErrChDiscards = some false + theorem queue_close_blocks_without_reader): reported as
-// `c19teardown #13a-errch`.
+// Server.Close must not leave the serveErrCh consumer goroutine (214c4ac: CloseAndDiscardQueued; theorem
+// server_errch_close_classified; a goroutine left is reported as `c19teardown #13a-errch`).
 
 import (
 	"bufio"
@@ -415,12 +414,12 @@ func runOracleTeardown(args []string) int {
 		case o.leftover != "" && sc.kind == "ctxcancel":
 			res.DistinctNontrivial++
 			res.Stats["ctxcancel.state-not-closed"]++
-			what := "Server.Close returned, but a goroutine is left: with the Serve context cancelled the DB write in user.removeState fails (`context canceled`) and removeState returns the error before state.Close(), so the state's update queue is never closed and its consumer goroutine sleeps in QueuedChannel.pop for ever (theorem teardown_writefail_unclosed_state_witness)"
+			what := "REGRESSION of 0873710: Server.Close returned, but a goroutine is left after the Serve context was cancelled with a logged-in session (removeState must close the state even if its DB write fails, otherwise the state's update-queue goroutine sleeps in QueuedChannel.pop for ever; theorems teardown_safe, teardown_writefail_now_clean)"
 			res.Violations = append(res.Violations, oracleViolation{Desc: "c19teardown #13d: " + what, Replay: writeReplay(*replayDir, "C19-c19teardown-13d.txt", replayText(what))})
 		case o.leftover != "" && sc.kind == "errch":
 			res.DistinctNontrivial++
 			res.Stats["errch.consumer-goroutine-left"]++
-			what := "Server.Close returned, but the consumer goroutine of the server-err-ch queue is left: three sessions ended with `context canceled`, nobody reads Server.GetErrorCh, and Server.Close uses plain serveErrCh.Close() (fact serverErrChDiscards = some false; theorem queue_close_blocks_without_reader, buffer 1)"
+			what := "REGRESSION of 214c4ac: Server.Close returned, but a goroutine is left: three sessions ended with `context canceled`, nobody reads Server.GetErrorCh (Server.Close must use serveErrCh.CloseAndDiscardQueued(); theorem server_errch_close_classified)"
 			res.Violations = append(res.Violations, oracleViolation{Desc: "c19teardown #13a-errch: " + what, Replay: writeReplay(*replayDir, "C19-c19teardown-13a-errch.txt", replayText(what))})
 		case o.leftover != "" && sc.kind == "teardown":
 			what := fmt.Sprintf("goroutines left behind after Server.Close returned: baseline %d, now %d", o.baseline, o.goroutines)
